@@ -446,6 +446,7 @@ def run(chk, repo, tier):
 
     # ---- L4 lock order graph
     _lock_order(chk, repo, m, L4, rel)
+    run_l10_l11(chk, repo)
 
 
 def dict_in(lf, nid):
@@ -626,3 +627,78 @@ def _lock_order(chk, repo, m, L4, rel):
         chk.violation(L4, rel, '<module>', 'cycle ' + ' -> '.join(a for a, _ in cyc),
                       'two code paths acquire the same mutexes in opposite order',
                       witness='two threads entering through the two paths deadlock')
+
+
+def run_l10_l11(chk, repo):
+    from sa.cfg import CFG
+    L10 = chk.rule('L10', 'process-level lock calls on the release side of a lock generator (after the yield) can only '
+                          'downgrade: shared=True, blocking=True as constants', floor=1)
+    L11 = chk.rule('L11', 'a path that is handed to path_lock is not opened by the caller (closing any descriptor of the file '
+                          'drops the process\'s fcntl locks on it)', floor=4)
+    m = repo.module('pharmpy.internals.fs.lock')
+    n10 = 0
+    for f in repo.all_funcs():
+        if f.module is not m or not is_contextmanager(f):
+            continue
+        cfg = CFG(f.node)
+        ys = [n.id for n in cfg.nodes.values() if n.kind == 'yield']
+        if not ys:
+            continue
+        after = set()
+        for y in ys:
+            for s_ in cfg.g.successors(y):
+                after |= cfg.reachable(s_)
+        before = cfg.reachable(cfg.entry, avoid=set(ys))
+        for nd in cfg.nodes.values():
+            if nd.ast is None or nd.kind not in ('stmt',) or nd.id not in after or nd.id in before:
+                continue
+            for c in ast.walk(nd.ast):
+                if isinstance(c, ast.Call) and dotted(c.func) == '_process_level_lock':
+                    n10 += 1
+                    vals = {}
+                    for i, a in enumerate(c.args[1:], start=1):
+                        vals[['fd', 'shared', 'blocking'][i]] = a
+                    for k in c.keywords:
+                        vals[k.arg] = k.value
+                    ok = all(isinstance(vals.get(k), ast.Constant) and vals[k].value is True for k in ('shared', 'blocking'))
+                    chk.instance(L10, f'{f.qualname}: release-side `{unparse(c)}` is a constant shared, blocking request: {ok}')
+                    if not ok:
+                        chk.violation(L10, m.rel, f.qualname, unparse(c),
+                                      'after an exclusive holder leaves while shared holders remain the process lock must be '
+                                      'downgraded to shared; with the acquire-side variables (shared=False here) it is taken '
+                                      'exclusively again', line=c.lineno,
+                                      witness='thread holds the path shared, nests a reentrant exclusive section and leaves it: '
+                                              'another process\'s shared request is refused / blocks')
+    if n10 == 0:
+        raise AnalysisError('L10: no process-level lock call on a release path found')
+    n11 = 0
+    for f in repo.all_funcs():
+        plc = [c for c in ast.walk(f.node) if isinstance(c, ast.Call) and (dotted(c.func) or '').split('.')[-1] == 'path_lock'
+               and c.args]
+        if not plc or f.module is m:
+            continue
+        for c in plc:
+            arg = c.args[0]
+            # str(path) -> path
+            base = arg.args[0] if isinstance(arg, ast.Call) and dotted(arg.func) == 'str' and arg.args else arg
+            key = unparse(base)
+            n11 += 1
+            opens = []
+            for o in ast.walk(f.node):
+                if not isinstance(o, ast.Call):
+                    continue
+                fn = dotted(o.func) or ''
+                if fn in ('open', 'os.open', 'io.open') and o.args and key in (unparse(o.args[0]), unparse(o.args[0]).replace('str(', '').rstrip(')')):
+                    opens.append(o)
+                if isinstance(o.func, ast.Attribute) and o.func.attr in ('open', 'write_text', 'read_text', 'write_bytes',
+                                                                          'read_bytes') and unparse(o.func.value) == key:
+                    opens.append(o)
+            chk.instance(L11, f'{f.qualname}: path_lock({key}); other opens of the same path: {[unparse(o)[:40] for o in opens]}')
+            for o in opens:
+                chk.violation(L11, f.module.rel, f.qualname, unparse(o),
+                              'the lock file is opened (and closed) outside the lock module: with POSIX record locks closing any '
+                              'descriptor of a file releases all locks the process holds on it', line=o.lineno,
+                              witness='thread A is inside db.snapshot(model), thread B of the same process enters snapshot: the '
+                                      'process lock is dropped and another process gets the exclusive database lock')
+    if n11 == 0:
+        raise AnalysisError('L11: no caller of path_lock found')
